@@ -910,4 +910,45 @@ theorem getValue_delivers (s : Store) (h : CH) (n : Name) (v : V) (hv : n.valid 
     | nil => exact ⟨false, by simp [hval]⟩
     | cons w2 ws2 => exact ⟨true, by simp [hval]⟩
 
+/-- **cif_container_set_value on an item the container has — when which answer**: the call succeeds; if the item's loop has
+    at least one packet, cif_container_get_value afterwards delivers exactly the value given (with the several-packets flag);
+    it answers CIF_NOSUCH_ITEM precisely when the loop has no packet, i.e. when there was no place to store the value -/
+theorem setValue_existing_read_strong (s : Store) (h : CH) (n : Name) (v : V) (l : LH) (hv : n.valid = true)
+    (hac : s.autocommit = true) (hl : getItemLoopInternal s.db h.id n.key = .ok l) :
+    ∃ ln, s.db.loopOfItem h.id n.key = some ln
+      ∧ (setValue s h (some n) (some v)).2 = .ok ()
+      ∧ (setValue s h (some n) (some v)).1.db.AllVals h.id n.key v
+      ∧ (∀ r ∈ s.db.loopRows h.id ln, (setValue s h (some n) (some v)).1.db.cell h.id n.key r = some v)
+      ∧ (s.db.loopRows h.id ln ≠ [] → ∃ b, (getValue (setValue s h (some n) (some v)).1 h (some n)).2 = .ok (v, b))
+      ∧ (s.db.loopRows h.id ln = [] → (getValue (setValue s h (some n) (some v)).1 h (some n)).2 = .error CIF_NOSUCH_ITEM) := by
+  obtain ⟨ln, hln⟩ := loopOfItem_of_itemLoop s.db h.id n.key l hl
+  have hres : setValue s h (some n) (some v) =
+      ((({ s with txn := some s.db, db := (s.db.setAllValues h.id n.key v).1 } : Store).commit).getD
+        { s with txn := some s.db, db := (s.db.setAllValues h.id n.key v).1 }, .ok ()) := by
+    simp [setValue, hv, Store.begin, hac, setValueInner, hl]
+  have hdb : (setValue s h (some n) (some v)).1.db = (s.db.setAllValues h.id n.key v).1 := by
+    rw [hres]; simp only [commit_getD_db]
+  obtain ⟨hall, hcells, _⟩ := setAllValues_all s.db h.id n.key v ln hln
+  refine ⟨ln, hln, by rw [hres], ?_, ?_, ?_, ?_⟩
+  · intro w hw; rw [hdb] at hw; exact hall w hw
+  · intro r hr; rw [hdb]; exact hcells r hr
+  · intro hne
+    obtain ⟨r, hr⟩ := List.exists_mem_of_ne_nil _ hne
+    exact getValue_delivers _ h n v hv (by intro w hw; rw [hdb] at hw; exact hall w hw) r (by rw [hdb]; exact hcells r hr)
+  · intro hnil
+    have hitem := loopOfItem_mem s.db h.id n.key ln hln
+    have hempty : (setValue s h (some n) (some v)).1.db.valuesOf h.id n.key = [] := by
+      rw [hdb]
+      cases hvs : (s.db.setAllValues h.id n.key v).1.valuesOf h.id n.key with
+      | nil => rfl
+      | cons w ws =>
+        exfalso
+        have hm := mem_valuesOf _ h.id n.key w (by rw [hvs]; exact List.mem_cons_self)
+        obtain ⟨hmem, hc, hn⟩ := hm
+        simp only [Db.setAllValues, hln, hnil, List.map_nil, List.append_nil, List.mem_filter] at hmem
+        have hrow : w.rowNum ∈ s.db.loopRows h.id ln := mem_loopRows s.db h.id ln w hmem.1 hc (by rw [hn]; exact hitem)
+        rw [hnil] at hrow; cases hrow
+    unfold getValue
+    simp only [hv, Bool.not_true, Bool.false_eq_true, if_false, hempty]
+
 end CifModel.Store
